@@ -1,0 +1,41 @@
+//go:build verif
+
+package nebula
+
+import (
+	"log/slog"
+
+	"github.com/slackhq/nebula/cert"
+	"github.com/slackhq/nebula/config"
+)
+
+// Hooks for the verification harness (engine conntrack). Thin exports only, no behaviour.
+
+// VerifFwReload runs Interface.reloadFirewall on an Interface that carries only what that method reads
+// (the certificate state, the current firewall, the logger) and returns the firewall installed afterwards.
+func VerifFwReload(l *slog.Logger, fw *Firewall, myCert cert.Certificate, c *config.C) *Firewall {
+	cs := &CertState{}
+	if myCert.Version() == cert.Version1 {
+		cs.v1Cert = myCert
+	} else {
+		cs.v2Cert = myCert
+	}
+	pki := &PKI{l: l}
+	pki.cs.Store(cs)
+	f := &Interface{pki: pki, firewall: fw, l: l}
+	f.reloadFirewall(c)
+	return f.firewall
+}
+
+// VerifFwRulesVersion reads Firewall.rulesVersion.
+func VerifFwRulesVersion(f *Firewall) uint16 { return f.rulesVersion }
+
+// VerifFwSetRulesVersion presets Firewall.rulesVersion (to reach the wrap without 65 536 reloads).
+func VerifFwSetRulesVersion(f *Firewall, v uint16) { f.rulesVersion = v }
+
+// VerifFwConnCount returns len(Conntrack.Conns).
+func VerifFwConnCount(f *Firewall) int {
+	f.Conntrack.Lock()
+	defer f.Conntrack.Unlock()
+	return len(f.Conntrack.Conns)
+}
